@@ -85,9 +85,31 @@ pub fn unhex(s: &str) -> Vec<u8> {
 /// Run code under test; a panic is data (Err(message)), never a harness failure.
 thread_local! { static IN_GUARD: std::cell::Cell<u32> = std::cell::Cell::new(0); }
 
+/// when the outermost call into the code under test began (epoch ms; 0 = none running) and how many there have been
+static CALL_STARTED_MS: std::sync::atomic::AtomicU64 = std::sync::atomic::AtomicU64::new(0);
+static CALLS: std::sync::atomic::AtomicU64 = std::sync::atomic::AtomicU64::new(0);
+
+fn now_ms() -> u64 { std::time::SystemTime::now().duration_since(std::time::UNIX_EPOCH).map(|d| d.as_millis() as u64).unwrap_or(0) }
+
+/// A call into the code under test that does not come back is a finding, not a harness failure: after `limit_ms` the
+/// watchdog prints a `hang` record (suite, mode, ordinal of the call - runs are deterministic for a seed) and ends the run.
+pub fn start_call_watchdog(limit_ms: u64, what: String) {
+    std::thread::spawn(move || loop {
+        std::thread::sleep(std::time::Duration::from_millis(1000));
+        let t0 = CALL_STARTED_MS.load(std::sync::atomic::Ordering::SeqCst);
+        if t0 != 0 && now_ms() > t0 + limit_ms {
+            // (stderr: the suite may hold the stdout lock for its whole run; exit status 3 = "hang record on stderr")
+            eprintln!("{}", serde_json::json!({"rec": "hang", "what": what, "call": CALLS.load(std::sync::atomic::Ordering::SeqCst), "limit_ms": limit_ms}));
+            std::process::exit(3);
+        }
+    });
+}
+
 pub fn guarded<T>(f: impl FnOnce() -> T) -> Result<T, String> {
-    IN_GUARD.with(|g| g.set(g.get() + 1));
+    let outermost = IN_GUARD.with(|g| { g.set(g.get() + 1); g.get() == 1 });
+    if outermost { CALLS.fetch_add(1, std::sync::atomic::Ordering::SeqCst); CALL_STARTED_MS.store(now_ms(), std::sync::atomic::Ordering::SeqCst); }
     let r = catch_unwind(AssertUnwindSafe(f));
+    if outermost { CALL_STARTED_MS.store(0, std::sync::atomic::Ordering::SeqCst); }
     IN_GUARD.with(|g| g.set(g.get() - 1));
     match r {
         Ok(v) => Ok(v),
